@@ -5,6 +5,7 @@ import Qentem.Proofs.NumToStrInt
 import Qentem.Proofs.NumToStrBits
 import Qentem.Proofs.NumToStrAppend
 import Qentem.Proofs.NumToStrIntClass
+import Qentem.Proofs.NumToStrExact
 /-! C10 — number to text equals the reference formatting for every value and precision.
 
 Model: `Qentem.NumToStr` (transcription of `Digit.hpp`), reference: `Qentem.FmtSpec` (ISO C
@@ -192,6 +193,45 @@ example : IntegerValued64 0x444B1AE4D6E2EF50 := integer_valued_of_big _ (by deci
 example : IntegerValued64 0x4008000000000000 := ⟨51, by constructor <;> decide⟩
 example : realToString f64 [] 0x444B1AE4D6E2EF50 2 fmtFixed =
     .ok [49,48,48,48,48,48,48,48,48,48,48,48,48,48,48,48,48,48,48,48,48,48,46,48,48] := by decide +kernel  -- 1000000000000000000000.00
+
+/-! ### the digit run is exact (whole real path) -/
+
+/-- **`digits_exact_or_sticky`** — doubles.  For every finite non-zero bit pattern, every format and every
+precision ≤ 40, the model's digit run (`bigIntDropDigits`, the ×5^27 loop with its mid-loop shifts, the
+checked BigInt width) returns **without fault** a BigInt `b` with
+`b = ⌊v · 10^fl / 10^d⌋` for the exact value `v = num/den` the reference decodes (`fl` = the fraction
+length handed to the formatter, `d` = number of integer digits dropped; one of them is 0), and
+`round_up = true ↔` the cut-off part is non-zero.  So the digit string the formatter receives is the exact
+decimal expansion of the binary value truncated at a known place, plus a correct sticky flag: after this,
+`FormatEqSpec` is a statement about the string-level formatter alone. -/
+theorem digits_exact_or_sticky (bits p fmt : Nat) (hp : p ≤ 40)
+    (hfin : (bits / 2 ^ 52) % 2 ^ 11 ≠ 2 ^ 11 - 1)
+    (hnz : (bits / 2 ^ 52) % 2 ^ 11 ≠ 0 ∨ bits % 2 ^ 52 ≠ 0) :
+    ∃ b digits fl pos ru d num den,
+      digitRun f64 (bits % 2 ^ 52) ((bits / 2 ^ 52) % 2 ^ 11 * 2 ^ 52) p fmt = .ok (b, digits, fl, pos, ru) ∧
+      FmtSpec.decode64 bits = .fin (decide ((bits / 2 ^ 63) % 2 = 1)) num den ∧ 0 < den ∧
+      (fl = 0 ∨ d = 0) ∧
+      b = num * 10 ^ fl / (den * 10 ^ d) ∧
+      (ru = true ↔ (num * 10 ^ fl) % (den * 10 ^ d) ≠ 0) :=
+  Qentem.Proofs.NumToStr.digitRun_exact (X := 11) Qentem.Proofs.NumToStr.shape64 (by decide) (by decide)
+    bits p fmt hp hfin hnz
+
+/-- the same for floats -/
+theorem digits_exact_or_sticky32 (bits p fmt : Nat) (hp : p ≤ 40)
+    (hfin : (bits / 2 ^ 23) % 2 ^ 8 ≠ 2 ^ 8 - 1)
+    (hnz : (bits / 2 ^ 23) % 2 ^ 8 ≠ 0 ∨ bits % 2 ^ 23 ≠ 0) :
+    ∃ b digits fl pos ru d num den,
+      digitRun f32 (bits % 2 ^ 23) ((bits / 2 ^ 23) % 2 ^ 8 * 2 ^ 23) p fmt = .ok (b, digits, fl, pos, ru) ∧
+      FmtSpec.decode32 bits = .fin (decide ((bits / 2 ^ 31) % 2 = 1)) num den ∧ 0 < den ∧
+      (fl = 0 ∨ d = 0) ∧
+      b = num * 10 ^ fl / (den * 10 ^ d) ∧
+      (ru = true ↔ (num * 10 ^ fl) % (den * 10 ^ d) ≠ 0) :=
+  Qentem.Proofs.NumToStr.digitRun_exact (X := 8) Qentem.Proofs.NumToStr.shape32 (by decide) (by decide)
+    bits p fmt hp hfin hnz
+
+/-- non-vacuity: 0.1 at 17 digits — the run is ⌊0.1·10^20⌋ = 10000000000000000555 (20 fractional digits), sticky -/
+example : digitRun f64 (0x3FB999999999999A % 2 ^ 52) ((0x3FB999999999999A / 2 ^ 52) % 2 ^ 11 * 2 ^ 52) 17 0 =
+    .ok (10000000000000000555, 2, 20, false, true) := by decide +kernel
 
 /-- `format_eq_spec_partial`: `FormatEqSpec` restricted to the special classes.  The rest — every
 finite non-zero value — is open; see `notes/design-numtostr.md`. -/
